@@ -278,6 +278,15 @@ Theorem C11_signed_view_exact : forall k v, (1 <= k)%nat -> v < 2 ^ (8 * N.of_na
 Proof. exact signed_view_exact. Qed.
 Print Assumptions C11_signed_view_exact.
 
+(* core._index_dtype (regenerated: index_view_signed; per run: index_view_holds_every_index) takes the signed view only for
+   dictionaries inside the signed range of the width: then every index that addresses the dictionary comes back unchanged *)
+Theorem C11_view_holds_every_index : forall k n v (signed : bool),
+  (1 <= k)%nat -> (signed = true -> n <= 2 ^ (8 * N.of_nat k - 1)) -> v < n -> n <= 2 ^ (8 * N.of_nat k) ->
+  view_value signed k v = Z.of_N v.
+Proof. exact view_holds_every_index. Qed.
+Print Assumptions C11_view_holds_every_index.
+
+(* the pinned rule (always signed) loses the top bit: *)
 Theorem C11_signed_view_high_bit_refuted : exists v, v < 2 ^ 8 /\ signed_view 1 v <> Z.of_N v.
 Proof. exact signed_view_high_bit_refuted. Qed.
 Print Assumptions C11_signed_view_high_bit_refuted.
